@@ -79,3 +79,52 @@ vg_inmodule_overlay() {
     vb_overlay_add "$pkgdir/zz_glue_imports_test.go" "$VERIF_SCRATCH/zz_glue_imports_test.go.txt"
   fi
 }
+
+# ---------------------------------------------------------------------------------------------------------------------
+# The dynamic interpreter (internal/pure/onthefly) as a harness dependency.
+#   vg_inmodule_interp_types <pkgdir> <pkgname>                      (between vb_overlay_begin/_end) adds the IValue type
+#   vg_inmodule_interp_adapter <pkgdir> <pkgname> <func> <importpath> (between vb_overlay_begin/_end) adds
+#                                          func <func>(ins pure.TypeInstance) (IValue, panicText) over that copy of the package
+#   vg_inmodule_interp_patched <name> <diff>...  copies the CURRENT interpreter sources (VERIF_EXTRA_OVERLAY replacements
+#                                          honoured) to inmod/internal/zzverif/<name>/ and applies each diff (made with
+#                                          diff -u a/internal/pure/onthefly/... b/...) that still applies; the list of
+#                                          applied diffs (basenames) is left in $VGI_PATCHES_APPLIED, the rejected in
+#                                          $VGI_PATCHES_REJECTED. Import path: $VGI_MOD/<name> (package onthefly).
+vg_inmodule_interp_types() {
+  sed -e "s/PKGNAME/$2/" "$VG/ivalue.go.tmpl" > "$VERIF_SCRATCH/zz_ivalue_$2.go.txt"
+  vb_overlay_add "$1/zz_ivalue_test.go" "$VERIF_SCRATCH/zz_ivalue_$2.go.txt"
+}
+
+vg_inmodule_interp_adapter() {
+  sed -e "s/PKGNAME/$2/" -e "s/FUNCNAME/$3/" -e "s#IMPORTPATH#$4#" "$VG/iadapter.go.tmpl" > "$VERIF_SCRATCH/zz_iadapter_$2_$3.go.txt"
+  vb_overlay_add "$1/zz_iadapter_$3_test.go" "$VERIF_SCRATCH/zz_iadapter_$2_$3.go.txt"
+}
+
+vg_inmodule_interp_patched() {
+  local name="$1"; shift
+  local W="$VERIF_SCRATCH/patchwork_$name" rel=internal/pure/onthefly f pair d
+  rm -rf "$W"; mkdir -p "$W/$rel"
+  for f in "$VERIF_REPO/$rel"/*.go; do
+    case "$f" in *_test.go) ;; *) cp "$f" "$W/$rel/" ;; esac
+  done
+  if [ -n "${VERIF_EXTRA_OVERLAY:-}" ]; then
+    local IFS=';'
+    for pair in $VERIF_EXTRA_OVERLAY; do
+      case "${pair%%=*}" in "$rel"/*.go) cp "${pair#*=}" "$W/${pair%%=*}" ;; esac
+    done
+    unset IFS
+  fi
+  VGI_PATCHES_APPLIED=""; VGI_PATCHES_REJECTED=""
+  for d in "$@"; do
+    if (cd "$W" && patch -p1 --forward -s --dry-run < "$d" >/dev/null 2>&1) && (cd "$W" && patch -p1 --forward -s < "$d" >/dev/null 2>&1); then
+      VGI_PATCHES_APPLIED="$VGI_PATCHES_APPLIED $(basename "$d")"
+    else
+      VGI_PATCHES_REJECTED="$VGI_PATCHES_REJECTED $(basename "$d")"
+      echo "NOTE: $(basename "$d") no longer applies to the current interpreter sources; the patched copy is built without it" >&2
+    fi
+  done
+  mkdir -p "$VERIF_SCRATCH/inmod/$VGI_REL/$name"
+  cp "$W/$rel"/*.go "$VERIF_SCRATCH/inmod/$VGI_REL/$name/"
+  rm -f "$VERIF_SCRATCH/inmod/$VGI_REL/$name"/*.orig "$VERIF_SCRATCH/inmod/$VGI_REL/$name"/*.rej
+  export VGI_PATCHES_APPLIED VGI_PATCHES_REJECTED
+}
